@@ -54,6 +54,21 @@ let partition_ok (n : int) (gs : (int * int) list) : string option =
           else go (pos + len) r in
     go 0 gs
 
+(* the verdict is that of the extracted [chain_b] (Checkers/OptB.v: chain_b b a rs = true
+   <-> rs is a chain a = s0 < e0 = s1 < ... = b); the hand-written scan above only supplies
+   the wording, and must agree with it *)
+let partition_ok (n : int) (gs : (int * int) list) : string option =
+  let hand = partition_ok n gs in
+  if n = 0 then hand
+  else begin
+    let proved = chain_b (nat_of_int n) (nat_of_int 0) (List.map (fun (a, l) -> (nat_of_int a, nat_of_int (a + l))) gs) in
+    match hand, proved with
+    | None, true -> None
+    | Some why, false -> Some why
+    | None, false -> Some "the proved checker chain_b rejects the partition"
+    | Some why, true -> failwith ("partition_ok and chain_b disagree: " ^ why)
+  end
+
 let q0 = { qnum = Z0; qden = XH }
 let qle a b = not (qltb b a)
 let fq (x : Obj.t) : q = Obj.obj x
